@@ -51,7 +51,10 @@ impl Reservoir {
         if idx < self.values.len() {
             self.values[idx].store(value.to_bits(), Relaxed);
         } else {
-            let maybe_idx = fastrand(idx);
+            // Algorithm R: the item at (zero-based) stream position `idx` replaces a uniformly chosen
+            // slot out of the `idx + 1` items seen so far, which keeps every position with equal
+            // probability (and keeps the range non-empty when the capacity is zero).
+            let maybe_idx = fastrand(idx + 1);
             if maybe_idx < self.values.len() {
                 self.values[maybe_idx].store(value.to_bits(), Relaxed);
             }
